@@ -3,6 +3,7 @@ pub mod c03;
 pub mod padding;
 pub mod mux;
 pub mod wirepath;
+pub mod life;
 
 pub fn run(args: &Args, log: &Log) -> Result<(), String> {
     match args.driver.as_str() {
@@ -10,6 +11,7 @@ pub fn run(args: &Args, log: &Log) -> Result<(), String> {
         "padding" => padding::run(args, log),
         "mux" => mux::run(args, log),
         "wirepath" => wirepath::run(args, log),
+        "life" => life::run(args, log),
         d => Err(format!("unknown driver {d}")),
     }
 }
